@@ -88,8 +88,14 @@ def do_case(ctx, inp):
     if var_sigs(o2) != var_sigs(o):
         d = [(x, y) for x, y in zip(var_sigs(o), var_sigs(o2)) if x != y][:3]
         ctx.fail("variable-objects-differ-after-round-trip", {"first_differences_before_after": d}); return
-    if o2.to_b64() != s:
-        ctx.fail("proposition-b64-not-stable", {}); return
+    # packing the unpacked object again: the text need not be byte-identical (pickle's memo of equal strings depends on how the
+    # object came to be), what it unpacks to must be
+    try:
+        o3 = pg.from_b64(o2.to_b64())
+    except Exception as e:
+        ctx.fail("from_b64-raised-on-own-to_b64-output", {"exception": f"{type(e).__name__}: {str(e)[:200]}", "model": t, "round": 2}); return
+    if snap(o3) != t or var_sigs(o3) != var_sigs(o):
+        ctx.fail("second-round-trip-differs", {"before": t, "after": snap(o3)}); return
     lv = leaves_of(t)
     for sg in assignments(ctx.rng, lv, 32):
         if o.evaluate(sg).as_tuple() != o2.evaluate(sg).as_tuple():
